@@ -298,15 +298,17 @@ Proof. vm_cast_no_check (eq_refl true). Qed.
 Lemma fc_rng_eq r c : In c the_components -> rng r c = position_range r c.
 Proof. intro H. unfold rng, fc_rng, fc_ranges. rewrite (assoc_map (position_range r) c the_components H). reflexivity. Qed.
 
-Theorem gen_national_valid : forall national cc r cls acc w bank account branch s,
+(* whatever from_components built (from values that fit their fields) passes the national validation *)
+Theorem built_national_valid : forall cc r cls acc w values b,
   find_row the_table cc = Some r -> text_eqb cc (tx "DE") = false ->
   assoc (cc ++ [58%N] ++ k_default) registered = Some (cls, acc) -> class_width cls = Some w ->
-  generate national cc bank account branch = Ok s ->
-  validate_national the_table the_algos (bank_code_entries the_banks) cc (iban_bban the_env s) = Ok true.
+  from_components the_env the_components the_table the_algos cc values = Ok b ->
+  (forall k, In k the_components ->
+     text_eqb k k_bank = false -> text_eqb k k_branch = false -> text_eqb k k_account = false ->
+     (len (clean the_env (get_val k values)) <= range_length (fc_rng the_components r k))%Z) ->
+  validate_national the_table the_algos (bank_code_entries the_banks) cc b = Ok true.
 Proof.
-  intros national cc r cls acc w bank account branch s Er Hde Hreg Hw H.
-  destruct (generate_parts national cc bank account branch s H) as (_ & b & Hb & Hbban).
-  set (values := generate_values bank account branch) in *.
+  intros cc r cls acc w values b Er Hde Hreg Hw Hb ONLY.
   pose proof (find_row_in _ _ _ Er) as [Hin Ecc].
   pose proof gen_computing_obl as O. rewrite forallb_forall in O. specialize (O r Hin). unfold computing_row_ok in O.
   rewrite Ecc, Hreg, Hw in O. apply andb_true_iff in O as [O Hacc]. apply andb_true_iff in O as [Hne Hwidth].
@@ -322,12 +324,8 @@ Proof.
   { rewrite Eacc. intros k Hk. rewrite forallb_forall in Hacc. specialize (Hacc k Hk).
     apply andb_true_iff in Hacc as [H1 H2]. apply negb_true_iff in H2. split; [apply existsb_in; exact H1|exact H2]. }
   destruct (fc_checksum_agrees the_env the_components the_table the_algos env_obl gen_zero_obl cc r values Er
-              (layout_of cc r Er) (only_three cc r bank account branch Er) b al Hb (fun K => gen_shape cc r Er _ K) Hal Hacc')
+              (layout_of cc r Er) ONLY b al Hb (fun K => gen_shape cc r Er _ K) Hal Hacc')
     as (K & HK & Hnat).
-  destruct (fc_result the_env the_components the_table the_algos env_obl gen_zero_obl cc r values Er
-              (layout_of cc r Er) (only_three cc r bank account branch Er) b Hb (fun K => gen_shape cc r Er _ K))
-    as (_ & _ & _ & Hcl & _).
-  rewrite (Hbban Hcl).
   assert (HKne : K <> []).
   { destruct (national_class_shape _ _ _ _ _ _ _ K w Ecls HK Hw) as [Hlen _]. intro E. subst K. cbn in Hlen. lia. }
   specialize (Hnat HKne Hne).
@@ -341,6 +339,21 @@ Proof.
   { apply map_ext_in. intros k Hk. destruct (Hacc' k Hk) as [Hc _]. rewrite (fc_rng_eq r k Hc). reflexivity. }
   rewrite Emap, Eval. unfold default_validate. unfold rng in HK, Hnat. unfold rng. rewrite HK. cbn [bind].
   rewrite Hnat, text_eqb_refl. reflexivity.
+Qed.
+
+Theorem gen_national_valid : forall national cc r cls acc w bank account branch s,
+  find_row the_table cc = Some r -> text_eqb cc (tx "DE") = false ->
+  assoc (cc ++ [58%N] ++ k_default) registered = Some (cls, acc) -> class_width cls = Some w ->
+  generate national cc bank account branch = Ok s ->
+  validate_national the_table the_algos (bank_code_entries the_banks) cc (iban_bban the_env s) = Ok true.
+Proof.
+  intros national cc r cls acc w bank account branch s Er Hde Hreg Hw H.
+  destruct (generate_parts national cc bank account branch s H) as (_ & b & Hb & Hbban).
+  destruct (fc_result the_env the_components the_table the_algos env_obl gen_zero_obl cc r _ Er
+              (layout_of cc r Er) (only_three cc r bank account branch Er) b Hb (fun K => gen_shape cc r Er _ K))
+    as (_ & _ & _ & Hcl & _).
+  rewrite (Hbban Hcl).
+  exact (built_national_valid cc r cls acc w _ b Er Hde Hreg Hw Hb (only_three cc r bank account branch Er)).
 Qed.
 
 (* ---- C09: parse and rebuild ---------------------------------------------------------------------------------------- *)
